@@ -14,7 +14,7 @@ func init() {
 	property("C09",
 		"Static conformance of text handling: (a) the terminator table is {plain: $, ascii: \\0, braille: $} and the terminator is appended exactly when the text does not already end with it, unknown types unchanged; (b) every text value recorded for hoisting or returned for a text statement is the terminator-formatted content with the very string type that is recorded/returned next to it; (c) the string type travels unchanged into ast.Text and selects the directive (default .string), and in the lexer a word directly followed by a quote is a string-type prefix whatever it spells; (d) the parallel text/type maps of a text poryswitch are read with the same key on every path; (e) one directive per line: emitText ranges over all lines of the value split at the same separator the lexer puts between adjacent literals and format() puts after a break. format() hands back the prefix literal iff a prefix was read (C09.c); every return of formatTextTerminator is one of the three documented ones (C09.a); every line gets its directive (C09.e); string literals are spelled by the source (C19.f); every program text is emitted (C10.f).",
 		[]string{"contents of string literals (what the lexer accepts inside quotes) are not decided", "go/ssa lowering is faithful to the source"},
-		"C09.a", "C09.b", "C09.c", "C09.d", "C09.e", "C06.b", "C06.c", "C07.c", "C19.c", "C19.f", "C10.f")
+		"C09.a", "C09.b", "C09.c", "C09.d", "C09.e", "C06.b", "C06.c", "C07.c", "C19.c", "C19.f", "C10.f", "C12.f")
 	property("C10",
 		"Static conformance of command pass-through: (a) every iteration of the argument loop either appends the (constant-substituted) literal of the current token, closes the argument, or takes one inline arm, and then advances by exactly one token; the loop ends at the matching ')' with parenthesis depth counted on '(' / ')', and a non-empty last argument is flushed; (b) a command is rendered as TAB name [SPACE args joined by ', '] NEWLINE from constant formats; (c) statements of a chunk are rendered in order, one render per element; (d) the command name is the token literal, never constant-substituted. Hoisted-argument patching is covered by C06.a/b/c. Emit hands every top-level statement to its emitter and writes the result (C10.f); every non-nil top-level statement is kept (C10.e); the depth counter only counts (C10.a); token literals are source text (C19.f); positions never decide parsing (C16.d).",
 		[]string{"go/ssa lowering is faithful to the source"},
@@ -698,6 +698,77 @@ func c10a(c *Ctx) {
 	first := head.Instrs[0]
 	_, noAdvance := existsPath(pathQuery{from: point{head, len(head.Instrs) - 1}, avoid: isNext, target: func(in ssa.Instruction) bool { return in == first }})
 	c.Check(!noAdvance, "arg-loop/advances", c.W.Pos(argPhi.Pos()), "every iteration consumes a token", "an iteration of the argument loop can return to the loop head without advancing the token window")
+	// every token does something: the accumulator never comes round unchanged (an arm that
+	// matches a token and does nothing drops that token from the argument)
+	{
+		unchanged := false
+		for i, e := range argPhi.Edges {
+			if !head.Dominates(head.Preds[i]) {
+				continue
+			}
+			seenP := map[ssa.Value]bool{}
+			var walk func(v ssa.Value)
+			walk = func(v ssa.Value) {
+				if v == ssa.Value(argPhi) {
+					unchanged = true
+					return
+				}
+				if seenP[v] {
+					return
+				}
+				seenP[v] = true
+				if q, ok := v.(*ssa.Phi); ok {
+					for _, qe := range q.Edges {
+						walk(qe)
+					}
+				}
+			}
+			walk(e)
+		}
+		c.Check(!unchanged, "arg-loop/no-token-dropped", c.W.Pos(argPhi.Pos()), "every iteration changes the argument under construction (appends to it, records a placeholder, or closes it)", "an iteration of the argument loop can leave the argument under construction untouched: the token it consumed is missing from the rendered command")
+	}
+	// which tokens are rejected inside an argument list: end of input, and a string type that is
+	// not followed by a string; every other error is handed up from a sub-parser. (Anything
+	// else written between the parentheses is passed on literally.)
+	{
+		bodyBlocks := loopBody(head)
+		nOwn := 0
+		for _, r := range returnsOf(fn) {
+			if !bodyBlocks[r.Block()] && !head.Dominates(r.Block()) {
+				continue
+			}
+			if isSuccessReturn(r) {
+				continue
+			}
+			// inside the loop (blocks ending in a return are never in the natural loop body: use dominance by a body block)
+			inLoop := false
+			for _, pb := range r.Block().Preds {
+				if bodyBlocks[pb] {
+					inLoop = true
+				}
+			}
+			if !inLoop {
+				continue
+			}
+			ev := r.Results[len(r.Results)-1]
+			call, isCtor := ev.(*ssa.Call)
+			if !isCtor || !isErrorCtorCall(call) {
+				continue // handed up
+			}
+			nOwn++
+			must := c.mustLits(fn, r.Block())
+			okWhy := false
+			for _, l := range must {
+				if strings.HasPrefix(l, "+($0.curToken") && strings.HasSuffix(l, `.Type == "EOF")`) {
+					okWhy = true
+				}
+				if strings.HasPrefix(l, "-($0.curToken") && strings.HasSuffix(l, `.Type == "STRING")`) {
+					okWhy = true
+				}
+			}
+			c.Check(okWhy, fmt.Sprintf("arg-loop/own-error#%d", nOwn), c.W.Pos(r.Pos()), "the argument loop itself only rejects end of input and a string type without its string", "the argument loop rejects a token on its own (under "+fmt.Sprint(prettyAll(must))+"): arguments are passed through literally, only end of input and a string type without a string are errors here")
+		}
+	}
 	// actions: classify the leaves merged into the accumulator on the back edge
 	type action struct {
 		guard string
